@@ -15,6 +15,7 @@ EXPLANATION = (
     "seconds) otherwise, with d = -offset of that clock; the absorbed filter is what is stored back; (R4) the absorb_* operations add "
     "exactly the applied change to the state entry of that clock and quantity (frequency_index / offset_index) and change nothing else "
     "(the system-clock variant also advances the filter time by the step)."
+    " The estimator's index bookkeeping (C42-R3/R4) is evaluated here too: a query reads a clock's estimate through its base index."
 )
 NOT_DECIDED = [
     "floating-point rounding of the addition that absorbs the applied change is not decided (R4 decides that the applied change is what is added, to the entry of that clock and quantity)",
